@@ -219,14 +219,15 @@ class Deviate(Factory, Container):
         q = q[selection]
         weights = weights[selection]
 
-        self.entries += float(weights.sum())
+        cb = float(weights.sum())
+        self.entries += cb
         ca_plus_cb = self.entries
 
         if math.isinf(ca_plus_cb):
             self.mean = float("nan")
             self.varianceTimesEntries = float("nan")
 
-        elif ca_plus_cb > 0.0:
+        elif cb > 0.0:
             cb = ca_plus_cb - ca
             mb = numpy.average(q, weights=weights)
             sb = cb * numpy.average((q - mb) * (q - mb), weights=weights)
